@@ -7,7 +7,15 @@
  * Every harness starts from an ARBITRARY owner state (all bytes symbolic) with the registry initialised from the representation
  * invariant (vectors: live[slot] <=> slot < size), and proves: the three hook assertions on every call inside the operation, the
  * invariant afterwards, outside_live back to its entry value, and every slot dead after the owner's destructor.
- * Native replay is not available for this family (the registry uses __CPROVER_same_object / __CPROVER_POINTER_OFFSET). */
+ * Native replay is not available for this family (the registry uses __CPROVER_same_object / __CPROVER_POINTER_OFFSET).
+ * Group prefixes: v_ static_vector<Tracked,N> · o_ optional<Tracked> · w_ variant<int,Tracked,Tracked2> · x_ expected<Tracked,Tracked2> ·
+ * i_ inplace_vector · s_ static_set · f_ flat_set · k_ stack · m_ uninitialized_x/construct_at/destroy_x · n_ inplace_function ·
+ * mo_/co_ static_vector of a move-only / copy-only element.  pair/tuple are NOT covered: their element lifetimes are compiler-generated
+ * member construction/destruction which cxx2c itself synthesises (that would verify the extractor, not tetl).
+ * kind=F groups carry unwind=7 only for the constant-bound loops of the ghost registry (NOUT, NSLOT); the library code under test is
+ * loop-free there.  etl::rotate is recursive: its recursion depth is bounded by unwindset (<= N), unwinding assertions stay on.
+ * The payload of Tracked is one byte (see driver.cpp: cxx2c does not lower alignas); the family is lowered with -fno-exceptions
+ * (the try/catch branch of uninitialized_copy/move is not lowerable; element special members are non-throwing by the property's quantifier). */
 #define N VF_N
 #define CAT_(a, b) a##b
 #define CAT(a, b) CAT_(a, b)
@@ -45,9 +53,9 @@ static void vf_dtor(const void *p, int tag) { int r; int s = vf_slot_of(p, &r);
 static void vf_use(const void *p, int tag) { int r; int s = vf_slot_of(p, &r);
   if (s >= 0) { __CPROVER_assert(vf_live[r][s] == tag, "C03: member function on dead storage"); return; }
   __CPROVER_assert(vf_out_find(p, tag) >= 0, "C03: member function on a dead object outside the element storage"); }
-void _ZN2vf6g_ctorEPKvi(const void *p, int tag) { vf_ctor(p, tag); }
-void _ZN2vf6g_dtorEPKvi(const void *p, int tag) { vf_dtor(p, tag); }
-void _ZN2vf5g_useEPKvi(const void *p, int tag) { vf_use(p, tag); }
+void _ZN2vf6g_ctorEPKvi(void *p, int tag) { vf_ctor(p, tag); }
+void _ZN2vf6g_dtorEPKvi(void *p, int tag) { vf_dtor(p, tag); }
+void _ZN2vf5g_useEPKvi(void *p, int tag) { vf_use(p, tag); }
 /* a live object owned by the harness (argument of the call) */
 static void vf_out_add(const void *p, int tag) { int i; for (i = 0; i < NOUT && vf_out_tag[i] != 0; ++i) ; vf_out_addr[i] = p; vf_out_tag[i] = (unsigned char)tag; ++outside_live; }
 static _Bool vf_out_live(const void *p, int tag) { return vf_out_find(p, tag) >= 0; }
@@ -207,7 +215,7 @@ static _Bool inv_opt(int k, const O *o) { return OIDX(*o) <= 1 && vf_region_is_p
 #define INVO(k, o) VF_ASSERT(inv_opt(k, &(o)), "C03: representation invariant after the operation: the value slot is alive <=> has_value()")
 #define DESTROYO(k, o) do { to_dtor(&(o)); VF_ASSERT(vf_all_dead(k), "C03: nothing alive once the owner is destroyed"); } while (0)
 
-/*@GROUP name=o_ctors props=C03,C02 kind=F objbits=12@*/
+/*@GROUP name=o_ctors props=C03,C02 kind=F unwind=7 objbits=12@*/
 void h_o_ctors(void) { VF_INPUT(O, o); raw_opt(0, &o); ARG(x); VF_INPUT(unsigned char, which); __CPROVER_assume(which <= 4); id_type xid = x.id;
   if (which == 0) to_default(&o); else if (which == 1) to_nullopt(&o); else if (which == 2) to_value(&o, &x); else if (which == 3) to_value_rv(&o, &x); else to_in_place(&o, xid);
   INVO(0, o); LEAKFREE(1); VF_ASSERT(vf_out_live(&x, 1), "C03: the argument is still alive");
@@ -215,7 +223,7 @@ void h_o_ctors(void) { VF_INPUT(O, o); raw_opt(0, &o); ARG(x); VF_INPUT(unsigned
   if (e.has) VF_ASSERT(to_arrow(&o) == OEL(o) && to_deref(&o) == OEL(o), "operator-> and operator* address the contained value");
   DESTROYO(0, o); LEAKFREE(1); VF_REACH(); }
 
-/*@GROUP name=o_copy_move props=C03,C02 kind=F objbits=12@*/
+/*@GROUP name=o_copy_move props=C03,C02 kind=F unwind=7 objbits=12@*/
 void h_o_copy_move(void) { ARBO(1, s); VF_INPUT(O, t); VF_INPUT(unsigned char, which); __CPROVER_assume(which <= 3); oview_t os = oview_of(&s); VF_INPUT(id_type, i);
   if (which == 0) { raw_opt(0, &t); to_copy_ctor(&t, &s); }
   else if (which == 1) { own_opt(0, &t); to_copy_assign(&t, &s); }
@@ -230,19 +238,19 @@ void h_o_copy_move(void) { ARBO(1, s); VF_INPUT(O, t); VF_INPUT(unsigned char, w
   else if (then == 1) { to_emplace(&s, i); INVO(1, s); } else if (then == 2) { to_reset(&s); INVO(1, s); }
   LEAKFREE(0); DESTROYO(1, s); INVO(0, t); VF_ASSERT(oview_eq(oview_of(&t), os), "destroying the source leaves the target alone"); DESTROYO(0, t); LEAKFREE(0); VF_REACH(); }
 
-/*@GROUP name=o_modify props=C03,C02 kind=F objbits=12@*/
+/*@GROUP name=o_modify props=C03,C02 kind=F unwind=7 objbits=12@*/
 void h_o_modify(void) { ARBO(0, o); ARG(x); VF_INPUT(unsigned char, which); __CPROVER_assume(which <= 4); id_type xid = x.id; oview_t e; e.has = which >= 2; e.id = xid; T *r = OEL(o);
   if (which == 0) to_reset(&o); else if (which == 1) to_assign_nullopt(&o); else if (which == 2) to_assign_value(&o, &x); else if (which == 3) to_assign_value_rv(&o, &x); else r = to_emplace(&o, xid);
   INVO(0, o); LEAKFREE(1); VF_ASSERT(vf_out_live(&x, 1), "C03: the argument is still alive");
   VF_ASSERT(oview_eq(oview_of(&o), e) && r == OEL(o), "reset / = nullopt: disengaged; = x / emplace(i): engaged with the value, emplace returns the contained value");
   DESTROYO(0, o); LEAKFREE(1); VF_REACH(); }
 
-/*@GROUP name=o_swap props=C03,C02 kind=F objbits=12@*/
+/*@GROUP name=o_swap props=C03,C02 kind=F unwind=7 objbits=12@*/
 void h_o_swap(void) { ARBO(0, a); ARBO(1, b); oview_t oa = oview_of(&a), ob = oview_of(&b); to_swap(&a, &b);
   INVO(0, a); INVO(1, b); LEAKFREE(0); VF_ASSERT(oview_eq(oview_of(&a), ob) && oview_eq(oview_of(&b), oa), "swap exchanges state and value over all four pairs");
   DESTROYO(0, a); INVO(1, b); DESTROYO(1, b); LEAKFREE(0); VF_REACH(); }
 
-/*@GROUP name=o_self props=C03,C02 kind=F objbits=12@*/
+/*@GROUP name=o_self props=C03,C02 kind=F unwind=7 objbits=12@*/
 void h_o_self(void) { ARBO(0, a); oview_t oa = oview_of(&a); VF_INPUT(unsigned char, which); __CPROVER_assume(which <= 2);
   if (which == 0) to_copy_assign(&a, &a); else if (which == 1) to_move_assign(&a, &a); else to_swap(&a, &a);
   INVO(0, a); LEAKFREE(0); VF_ASSERT(oview_eq(oview_of(&a), oa), "self-assignment and self-swap leave the value unchanged");
@@ -280,7 +288,7 @@ static _Bool inv_exp(int k, const X *x) { return XIDX(*x) <= 1 && vf_live[k][0] 
 #define INVX(k, x) VF_ASSERT(inv_exp(k, &(x)), "C03: representation invariant after the operation: the value is alive <=> has_value(), else exactly the error is alive")
 #define DESTROYX(k, x) do { tx_dtor(&(x)); VF_ASSERT(vf_all_dead(k), "C03: nothing alive once the owner is destroyed"); } while (0)
 
-/*@GROUP name=w_ctors props=C03,C02 kind=F objbits=12@*/
+/*@GROUP name=w_ctors props=C03,C02 kind=F unwind=7 objbits=12@*/
 void h_w_ctors(void) { VF_INPUT(W, w); raw_var(0, &w); ARG(x); ARG2(y); VF_INPUT(int, i); VF_INPUT(unsigned char, which); __CPROVER_assume(which <= 5); id_type xid = x.id, yid = y.id;
   if (which == 0) tw_default(&w); else if (which == 1) tw_ctor_int(&w, i); else if (which == 2) tw_ctor_t1(&w, &x); else if (which == 3) tw_ctor_t2_rv(&w, &y); else if (which == 4) tw_in_place1(&w, xid); else tw_in_place2(&w, yid);
   INVW(0, w); LEAKFREE(2); VF_ASSERT(vf_out_live(&x, 1) && vf_out_live(&y, 2), "C03: the arguments are still alive");
@@ -288,7 +296,7 @@ void h_w_ctors(void) { VF_INPUT(W, w); raw_var(0, &w); ARG(x); ARG2(y); VF_INPUT
   VF_ASSERT(wview_eq(wview_of(&w), e) && tw_index(&w) == e.idx, "variant(), variant(T&&), variant(in_place_index/type, args): the selected alternative holds the value");
   DESTROYW(0, w); LEAKFREE(2); VF_REACH(); }
 
-/*@GROUP name=w_copy_move props=C03,C02 kind=F objbits=12 cost=2@*/
+/*@GROUP name=w_copy_move props=C03,C02 kind=F unwind=7 objbits=12 cost=2@*/
 void h_w_copy_move(void) { ARBW(1, s); VF_INPUT(W, t); VF_INPUT(unsigned char, which); __CPROVER_assume(which <= 3); wview_t os = wview_of(&s); VF_INPUT(id_type, i);
   if (which == 0) { raw_var(0, &t); tw_copy_ctor(&t, &s); }
   else if (which == 1) { own_var(0, &t); tw_copy_assign(&t, &s); }
@@ -302,7 +310,7 @@ void h_w_copy_move(void) { ARBW(1, s); VF_INPUT(W, t); VF_INPUT(unsigned char, w
   else if (then == 1) { tw_emplace1(&s, i); INVW(1, s); } else if (then == 2) { tw_emplace0(&s, i); INVW(1, s); }
   LEAKFREE(0); DESTROYW(1, s); INVW(0, t); VF_ASSERT(wview_eq(wview_of(&t), os), "destroying the source leaves the target alone"); DESTROYW(0, t); LEAKFREE(0); VF_REACH(); }
 
-/*@GROUP name=w_emplace props=C03,C02 kind=F objbits=12@*/
+/*@GROUP name=w_emplace props=C03,C02 kind=F unwind=7 objbits=12@*/
 void h_w_emplace(void) { ARBW(0, w); ARG(x); ARG2(y); VF_INPUT(int, i); VF_INPUT(unsigned char, which); __CPROVER_assume(which <= 5); id_type xid = x.id, yid = y.id;
   if (which == 0) tw_emplace0(&w, i); else if (which == 1) tw_emplace1(&w, xid); else if (which == 2) tw_emplace2(&w, yid); else if (which == 3) tw_assign_int(&w, i); else if (which == 4) tw_assign_t1(&w, &x); else tw_assign_t2_rv(&w, &y);
   INVW(0, w); LEAKFREE(2); VF_ASSERT(vf_out_live(&x, 1) && vf_out_live(&y, 2), "C03: the arguments are still alive");
@@ -310,18 +318,18 @@ void h_w_emplace(void) { ARBW(0, w); ARG(x); ARG2(y); VF_INPUT(int, i); VF_INPUT
   VF_ASSERT(wview_eq(wview_of(&w), e), "emplace<I>/emplace<T>/operator=(T&&) from every alternative: the old alternative is destroyed, the new one holds the value");
   DESTROYW(0, w); LEAKFREE(2); VF_REACH(); }
 
-/*@GROUP name=w_swap props=C03,C02 kind=F objbits=12 cost=2@*/
+/*@GROUP name=w_swap props=C03,C02 kind=F unwind=7 objbits=12 cost=2@*/
 void h_w_swap(void) { ARBW(0, a); ARBW(1, b); wview_t oa = wview_of(&a), ob = wview_of(&b); tw_swap(&a, &b);
   INVW(0, a); INVW(1, b); LEAKFREE(0); VF_ASSERT(wview_eq(wview_of(&a), ob) && wview_eq(wview_of(&b), oa), "swap exchanges alternative and value over all nine index pairs");
   DESTROYW(0, a); INVW(1, b); DESTROYW(1, b); LEAKFREE(0); VF_REACH(); }
 
-/*@GROUP name=w_self props=C03,C02 kind=F objbits=12@*/
+/*@GROUP name=w_self props=C03,C02 kind=F unwind=7 objbits=12@*/
 void h_w_self(void) { ARBW(0, a); wview_t oa = wview_of(&a); VF_INPUT(unsigned char, which); __CPROVER_assume(which <= 2);
   if (which == 0) tw_copy_assign(&a, &a); else if (which == 1) tw_move_assign(&a, &a); else tw_swap(&a, &a);
   INVW(0, a); LEAKFREE(0); VF_ASSERT(wview_eq(wview_of(&a), oa), "self-assignment and self-swap leave the value unchanged");
   DESTROYW(0, a); LEAKFREE(0); VF_REACH(); }
 
-/*@GROUP name=x_ctors props=C03,C02 kind=F objbits=12@*/
+/*@GROUP name=x_ctors props=C03,C02 kind=F unwind=7 objbits=12@*/
 void h_x_ctors(void) { VF_INPUT(X, x); raw_exp(0, &x); VF_INPUT(id_type, i); VF_INPUT(unsigned char, which); __CPROVER_assume(which <= 2);
   if (which == 0) tx_default(&x); else if (which == 1) tx_in_place(&x, i); else tx_unexpect(&x, i);
   INVX(0, x); LEAKFREE(0); wview_t e; e.idx = which == 2; e.val = which == 0 ? 0 : i;
@@ -329,7 +337,7 @@ void h_x_ctors(void) { VF_INPUT(X, x); raw_exp(0, &x); VF_INPUT(id_type, i); VF_
   if (which != 2) VF_ASSERT(tx_arrow(&x) == XV(x), "operator-> addresses the value"); else VF_ASSERT(tx_error(&x) == XE(x), "error() addresses the error");
   DESTROYX(0, x); LEAKFREE(0); VF_REACH(); }
 
-/*@GROUP name=x_copy_move props=C03,C02 kind=F objbits=12 cost=2@*/
+/*@GROUP name=x_copy_move props=C03,C02 kind=F unwind=7 objbits=12 cost=2@*/
 void h_x_copy_move(void) { ARBX(1, s); VF_INPUT(X, t); VF_INPUT(unsigned char, which); __CPROVER_assume(which <= 3); wview_t os = xview_of(&s); VF_INPUT(id_type, i);
   if (which == 0) { raw_exp(0, &t); tx_copy_ctor(&t, &s); }
   else if (which == 1) { own_exp(0, &t); tx_copy_assign(&t, &s); }
@@ -343,9 +351,313 @@ void h_x_copy_move(void) { ARBX(1, s); VF_INPUT(X, t); VF_INPUT(unsigned char, w
   else if (then == 1) { T *r = tx_emplace(&s, i); INVX(1, s); VF_ASSERT(XIDX(s) == 0 && r == XV(s) && r->id == i, "emplace: holds the value"); }
   LEAKFREE(0); DESTROYX(1, s); INVX(0, t); VF_ASSERT(wview_eq(xview_of(&t), os), "destroying the source leaves the target alone"); DESTROYX(0, t); LEAKFREE(0); VF_REACH(); }
 
-/*@GROUP name=x_swap_self props=C03,C02 kind=F objbits=12 cost=2@*/
+/*@GROUP name=x_swap_self props=C03,C02 kind=F unwind=7 objbits=12 cost=2@*/
 void h_x_swap_self(void) { ARBX(0, a); ARBX(1, b); wview_t oa = xview_of(&a), ob = xview_of(&b); VF_INPUT(unsigned char, which); __CPROVER_assume(which <= 3);
   if (which == 0) { tx_swap(&a, &b); VF_ASSERT(wview_eq(xview_of(&a), ob) && wview_eq(xview_of(&b), oa), "swap exchanges state and value over all four pairs"); }
   else { if (which == 1) tx_copy_assign(&a, &a); else if (which == 2) tx_move_assign(&a, &a); else tx_swap(&a, &a);
     VF_ASSERT(wview_eq(xview_of(&a), oa) && wview_eq(xview_of(&b), ob), "self-assignment and self-swap leave the value unchanged"); }
   INVX(0, a); INVX(1, b); LEAKFREE(0); DESTROYX(0, a); INVX(1, b); DESTROYX(1, b); LEAKFREE(0); VF_REACH(); }
+
+/*@COMMON@*/
+/* ---- inplace_vector<Tracked,N>: live[slot] <=> slot < size ------------------------------------------------------------- */
+typedef struct CAT(etl_inplace_vector_vf_Tracked_, VF_N) IV;
+#define ISZ(v) ((v)._size)
+#define IELP(v, i) ((T *)&(v)._storage._storage[(i) * sizeof(T)])
+static view_t iview_of(const IV *v) { view_t w; w.n = ISZ(*v); for (int i = 0; i < N; ++i) w.a[i] = (unsigned long)i < w.n ? IELP(*v, i)->id : 0; w.a[N] = 0; return w; }
+static void own_ipv(int k, IV *v) { vf_region_set(k, IELP(*v, 0), sizeof(T), N); __CPROVER_assume(ISZ(*v) <= N); vf_region_live_prefix(k, ISZ(*v), 1); }
+static void raw_ipv(int k, IV *v) { vf_region_set(k, IELP(*v, 0), sizeof(T), N); vf_region_live_prefix(k, 0, 1); }
+static _Bool inv_ipv(int k, const IV *v) { return ISZ(*v) <= N && vf_region_is_prefix(k, ISZ(*v), 1); }
+#define ARBI(k, v) VF_INPUT(IV, v); own_ipv(k, &v)
+#define INVI(k, v) VF_ASSERT(inv_ipv(k, &(v)), "C03: representation invariant after the operation: live[slot] <=> slot < size")
+#define DESTROYI(k, v) do { ti_dtor(&(v)); VF_ASSERT(vf_all_dead(k), "C03: nothing alive once the owner is destroyed"); } while (0)
+
+/*@GROUP name=i_ctor_dtor props=C03,C02 kind=K unwind=7 objbits=12@*/
+void h_i_ctor_dtor(void) { VF_INPUT(IV, v); raw_ipv(0, &v); ti_value_init(&v); INVI(0, v); VF_ASSERT(ISZ(v) == 0, "inplace_vector(): empty"); LEAKFREE(0);
+  ARBI(1, w); DESTROYI(1, w); LEAKFREE(0); DESTROYI(0, v); VF_REACH(); }
+
+/*@GROUP name=i_push_back props=C03,C02 kind=K unwind=7 objbits=12@*/
+void h_i_push_back(void) { ARBI(0, v); ARG(x); VF_INPUT(unsigned char, which); __CPROVER_assume(which <= 5); view_t o = iview_of(&v); id_type xid = x.id; if (which >= 3) __CPROVER_assume(ISZ(v) < N);
+  T *r = which == 0 ? ti_try_emplace_back(&v, xid) : which == 1 ? ti_try_push_back(&v, &x) : which == 2 ? ti_try_push_back_rv(&v, &x) : which == 3 ? ti_unchecked_emplace_back(&v, xid) : which == 4 ? ti_unchecked_push_back(&v, &x) : ti_unchecked_push_back_rv(&v, &x);
+  INVI(0, v); LEAKFREE(1); VF_ASSERT(vf_out_live(&x, 1), "C03: the argument is still alive (moved-from, not destroyed)");
+  if (o.n == N) VF_ASSERT(r == 0 && view_eq(iview_of(&v), o), "try_*_back on a full vector: returns nullptr, nothing constructed, contents unchanged");
+  else VF_ASSERT(r == IELP(v, o.n) && view_eq(iview_of(&v), sp_insert_n(o, o.n, 1, xid)), "*_back: n' = n+1, prefix unchanged, a'[n] = x, returns the new element");
+  DESTROYI(0, v); LEAKFREE(1); VF_REACH(); }
+
+/*@GROUP name=i_pop_clear props=C03,C02 kind=K unwind=7 objbits=12@*/
+void h_i_pop_clear(void) { ARBI(0, v); VF_INPUT_BOOL(clr); view_t o = iview_of(&v); view_t e; e.n = 0; if (clr) ti_clear(&v); else { __CPROVER_assume(ISZ(v) > 0); ti_pop_back(&v); }
+  INVI(0, v); LEAKFREE(0); VF_ASSERT(view_eq(iview_of(&v), clr ? e : sp_erase(o, o.n - 1, o.n)), "pop_back: n' = n-1, prefix unchanged; clear: empty"); DESTROYI(0, v); LEAKFREE(0); VF_REACH(); }
+
+/*@GROUP name=i_copy_move props=C03,C02 kind=K unwind=7 objbits=12@*/
+void h_i_copy_move(void) { ARBI(1, s); VF_INPUT(IV, t); raw_ipv(0, &t); VF_INPUT_BOOL(mv); ARG(x); view_t os = iview_of(&s);
+  VF_KNOWN(C03_ipv_move_ctor_leak, mv && os.n > 0);
+  if (mv) ti_move_ctor(&t, &s); else ti_copy_ctor(&t, &s);
+  INVI(0, t); LEAKFREE(1); VF_ASSERT(view_eq(iview_of(&t), os), "copy/move construction: target view == source view");
+  INVI(1, s); if (!mv) VF_ASSERT(view_eq(iview_of(&s), os), "copy leaves the source view unchanged");
+  /* the source stays a valid object: usable, destructible */
+  if (ISZ(s) < N) { ti_unchecked_push_back(&s, &x); INVI(1, s); }
+  LEAKFREE(1); DESTROYI(1, s); INVI(0, t); VF_ASSERT(view_eq(iview_of(&t), os), "destroying the source leaves the target alone"); DESTROYI(0, t); LEAKFREE(1); VF_REACH(); }
+
+/*@COMMON@*/
+/* ---- static_set / flat_set / stack over static_vector<Tracked,N>: the element storage is the inner vector's ------------ */
+typedef struct CAT(etl_static_set_vf_Tracked_, VF_N) SS;
+typedef struct CAT(CAT(etl_flat_set_vf_Tracked_etl_static_vector_vf_Tracked_, VF_N), _vf_TLess) FS;
+typedef struct CAT(etl_stack_vf_Tracked_etl_static_vector_vf_Tracked_, VF_N) ST;
+static _Bool sorted_unique(view_t o) { for (int i = 0; i + 1 < N; ++i) if ((unsigned long)i + 1 < o.n && !(o.a[i] < o.a[i + 1])) return 0; return 1; }
+static unsigned long lb_of(view_t o, id_type x) { unsigned long k = 0; for (int i = 0; i < N; ++i) if ((unsigned long)i < o.n && o.a[i] < x) ++k; return k; }
+static _Bool has_of(view_t o, id_type x) { for (int i = 0; i < N; ++i) if ((unsigned long)i < o.n && o.a[i] == x) return 1; return 0; }
+/* arbitrary well-formed set: strictly ascending */
+#define ARBSET(k, TYPE, s, mem) VF_INPUT(TYPE, s); own_vec(k, &s.mem); __CPROVER_assume(sorted_unique(view_of(&s.mem)))
+#define DESTROYS(k, s) do { ts_dtor(&(s)); VF_ASSERT(vf_all_dead(k), "C03: nothing alive once the owner is destroyed"); } while (0)
+#define DESTROYF(k, s) do { tf_dtor(&(s)); VF_ASSERT(vf_all_dead(k), "C03: nothing alive once the owner is destroyed"); } while (0)
+#define DESTROYK(k, s) do { tk_dtor(&(s)); VF_ASSERT(vf_all_dead(k), "C03: nothing alive once the owner is destroyed"); } while (0)
+#define SETVIEW(v, e) VF_ASSERT(sorted_unique(view_of(&(v))) && view_eq(view_of(&(v)), (e)), "set contents: strictly ascending, exactly the expected keys")
+
+/*@COMMON@*/
+static void s_insert_body(unsigned char which) { ARBSET(0, SS, s, _storage); ARG(x); view_t o = view_of(&s._storage); id_type xid = x.id; T *pos;
+  _Bool r = which == 0 ? ts_insert(&s, &x, &pos) : (which == 1 ? ts_insert_rv(&s, &x, &pos) : ts_emplace(&s, xid, &pos));
+  INVV(0, s._storage); LEAKFREE(1); VF_ASSERT(vf_out_live(&x, 1), "C03: the argument is still alive (moved-from, not destroyed)");
+  _Bool ins = o.n < N && !has_of(o, xid);
+  VF_ASSERT(r == ins, "insert/emplace return true <=> the key was absent and there was room");
+  SETVIEW(s._storage, ins ? sp_insert_n(o, lb_of(o, xid), 1, xid) : o);   /* the returned iterator is not checked here: C01, family sets */
+  DESTROYS(0, s); LEAKFREE(1); }
+
+/*@GROUP name=s_insert_copy props=C03,C02 kind=K unwind=7 unwindset=_ZN3etl6rotateIPN2vf7TrackedEEET_S4_S4_S4_:4 objbits=12 cost=3@*/
+void h_s_insert_copy(void) { s_insert_body(0); VF_REACH(); }
+/*@GROUP name=s_insert_move props=C03,C02 kind=K unwind=7 unwindset=_ZN3etl6rotateIPN2vf7TrackedEEET_S4_S4_S4_:4 objbits=12 cost=3@*/
+void h_s_insert_move(void) { s_insert_body(1); VF_REACH(); }
+/*@GROUP name=s_emplace props=C03,C02 kind=K unwind=7 unwindset=_ZN3etl6rotateIPN2vf7TrackedEEET_S4_S4_S4_:4 objbits=12 cost=3@*/
+void h_s_emplace(void) { s_insert_body(2); VF_REACH(); }
+
+/*@COMMON@*/
+static void s_range_body(unsigned char maxc) { VF_INPUT(SS, s); VF_INPUT(unsigned char, c); VF_INPUT_BOOL(ctor); __CPROVER_assume(c <= maxc); SRC(c);
+  if (ctor) { raw_vec(0, &s._storage); ts_ctor_range(&s, src, src + c); } else { own_vec(0, &s._storage); __CPROVER_assume(sorted_unique(view_of(&s._storage))); ts_insert_range(&s, src, src + c); }
+  INVV(0, s._storage); LEAKFREE(0); SRC_INTACT(c); VF_ASSERT(sorted_unique(view_of(&s._storage)), "static_set(first,last) / insert(first,last): strictly ascending");
+  for (int i = 0; i < 2; ++i) if (i < c && (SZ(s._storage) < N)) VF_ASSERT(has_of(view_of(&s._storage), src[i].id), "every source key is present when there was room");
+  DESTROYS(0, s); LEAKFREE(0); SRC_INTACT(c); }
+
+/*@GROUP name=s_range1 props=C03,C02 kind=B unwind=7 unwindset=_ZN3etl6rotateIPN2vf7TrackedEEET_S4_S4_S4_:4,_ZN3etl10static_setIN2vf7TrackedELm4ENS_4lessIS2_EEE6insertIPKS2_EEvT_S9_.0:2 objbits=12 cost=3 bound=range_length<=1@*/
+void h_s_range1(void) { s_range_body(1); VF_REACH(); }
+/*@GROUP name=s_range2 props=C03,C02 kind=B unwind=7 unwindset=_ZN3etl6rotateIPN2vf7TrackedEEET_S4_S4_S4_:4,_ZN3etl10static_setIN2vf7TrackedELm4ENS_4lessIS2_EEE6insertIPKS2_EEvT_S9_.0:3 objbits=12 cost=6 tier=thorough timeout=900 bound=range_length<=2@*/
+void h_s_range2(void) { s_range_body(2); VF_REACH(); }
+
+/*@GROUP name=s_erase props=C03,C02 kind=K unwind=7 unwindset=_ZN3etl6rotateIPN2vf7TrackedEEET_S4_S4_S4_:4 objbits=12 cost=2@*/
+void h_s_erase(void) { ARBSET(0, SS, s, _storage); ARG(x); VF_INPUT(unsigned char, which); VF_INPUT(unsigned char, p); __CPROVER_assume(which <= 2); view_t o = view_of(&s._storage); view_t e; e.n = 0; id_type xid = x.id;
+  if (which == 0) { __CPROVER_assume(p < o.n); T *r = ts_erase(&s, ELP(s._storage, p)); SETVIEW(s._storage, sp_erase(o, p, p + 1)); VF_ASSERT(r == ELP(s._storage, p), "erase(pos) returns the following position"); }
+  else if (which == 1) { unsigned long r = ts_erase_key(&s, &x); VF_ASSERT(SZ(s._storage) == o.n - r && r <= 1, "erase(key): returns the number of removed elements");
+    if (has_of(o, xid)) { SETVIEW(s._storage, sp_erase(o, lb_of(o, xid), lb_of(o, xid) + 1)); VF_ASSERT(r == 1, "erase(key) removes a present key"); } }
+  else { ts_clear(&s); SETVIEW(s._storage, e); }
+  INVV(0, s._storage); LEAKFREE(1); VF_ASSERT(vf_out_live(&x, 1) && x.id == xid, "C03: the key argument is alive and unchanged");
+  DESTROYS(0, s); LEAKFREE(1); VF_REACH(); }
+
+/*@GROUP name=s_copy_move props=C03,C02 kind=K unwind=7 unwindset=_ZN3etl6rotateIPN2vf7TrackedEEET_S4_S4_S4_:4 objbits=12 cost=3@*/
+void h_s_copy_move(void) { ARBSET(1, SS, s, _storage); VF_INPUT(SS, t); VF_INPUT(unsigned char, which); ARG(x); __CPROVER_assume(which <= 3); view_t os = view_of(&s._storage); T *pos;
+  if (which == 0) { raw_vec(0, &t._storage); ts_copy_ctor(&t, &s); }
+  else if (which == 1) { own_vec(0, &t._storage); ts_copy_assign(&t, &s); }
+  else if (which == 2) { raw_vec(0, &t._storage); ts_move_ctor(&t, &s); }
+  else { own_vec(0, &t._storage); ts_move_assign(&t, &s); }
+  INVV(0, t._storage); INVV(1, s._storage); LEAKFREE(1); SETVIEW(t._storage, os);
+  if (which <= 1) VF_ASSERT(view_eq(view_of(&s._storage), os), "copy leaves the source unchanged");
+  VF_INPUT_BOOL(reassign); if (reassign) { ts_copy_assign(&s, &t); INVV(1, s._storage); SETVIEW(s._storage, os); } else { ts_clear(&s); ts_insert(&s, &x, &pos); INVV(1, s._storage); }
+  LEAKFREE(1); DESTROYS(1, s); INVV(0, t._storage); SETVIEW(t._storage, os); DESTROYS(0, t); LEAKFREE(1); VF_REACH(); }
+
+/*@GROUP name=s_swap_self props=C03,C02 kind=K unwind=7 unwindset=_ZN3etl6rotateIPN2vf7TrackedEEET_S4_S4_S4_:4 objbits=12 cost=3@*/
+void h_s_swap_self(void) { ARBSET(0, SS, a, _storage); ARBSET(1, SS, b, _storage); view_t oa = view_of(&a._storage), ob = view_of(&b._storage); VF_INPUT(unsigned char, which); __CPROVER_assume(which <= 3);
+  VF_KNOWN(C01_self_copy_assign, which == 1 && oa.n > 0);
+  if (which == 0) { ts_swap(&a, &b); SETVIEW(a._storage, ob); SETVIEW(b._storage, oa); }
+  else { if (which == 1) ts_copy_assign(&a, &a); else if (which == 2) ts_move_assign(&a, &a); else ts_swap(&a, &a);
+    if (which != 2) SETVIEW(a._storage, oa); SETVIEW(b._storage, ob); }
+  INVV(0, a._storage); INVV(1, b._storage); LEAKFREE(0); DESTROYS(0, a); INVV(1, b._storage); DESTROYS(1, b); LEAKFREE(0); VF_REACH(); }
+
+/*@COMMON@*/
+static void f_insert_body(unsigned char which) { ARBSET(0, FS, s, _container); ARG(x); view_t o = view_of(&s._container); id_type xid = x.id; T *pos;
+  _Bool ins = !has_of(o, xid); if (ins) __CPROVER_assume(o.n < N);   /* inserting a new key into a full container violates the container's precondition */
+  _Bool r = which == 0 ? tf_insert(&s, &x, &pos) : (which == 1 ? tf_insert_rv(&s, &x, &pos) : tf_emplace(&s, xid, &pos));
+  INVV(0, s._container); LEAKFREE(1); VF_ASSERT(vf_out_live(&x, 1), "C03: the argument is still alive (moved-from, not destroyed)");
+  VF_ASSERT(r == ins && pos == ELP(s._container, lb_of(o, xid)), "insert/emplace return (position of the key, true <=> the key was absent)");
+  SETVIEW(s._container, ins ? sp_insert_n(o, lb_of(o, xid), 1, xid) : o);
+  DESTROYF(0, s); LEAKFREE(1); }
+
+/*@GROUP name=f_insert_copy props=C03,C02 kind=K unwind=7 unwindset=_ZN3etl6rotateIPN2vf7TrackedEEET_S4_S4_S4_:4 objbits=12 cost=3@*/
+void h_f_insert_copy(void) { f_insert_body(0); VF_REACH(); }
+/*@GROUP name=f_insert_move props=C03,C02 kind=K unwind=7 unwindset=_ZN3etl6rotateIPN2vf7TrackedEEET_S4_S4_S4_:4 objbits=12 cost=3@*/
+void h_f_insert_move(void) { f_insert_body(1); VF_REACH(); }
+/*@GROUP name=f_emplace props=C03,C02 kind=K unwind=7 unwindset=_ZN3etl6rotateIPN2vf7TrackedEEET_S4_S4_S4_:4 objbits=12 cost=3@*/
+void h_f_emplace(void) { f_insert_body(2); VF_REACH(); }
+
+/*@GROUP name=f_erase props=C03,C02 kind=K unwind=7 unwindset=_ZN3etl6rotateIPN2vf7TrackedEEET_S4_S4_S4_:4 objbits=12 cost=2@*/
+void h_f_erase(void) { ARBSET(0, FS, s, _container); ARG(x); VF_INPUT(unsigned char, which); VF_INPUT(unsigned char, p); VF_INPUT(unsigned char, q); __CPROVER_assume(which <= 3); view_t o = view_of(&s._container); view_t e; e.n = 0; id_type xid = x.id;
+  if (which == 0) { __CPROVER_assume(p < o.n); T *r = tf_erase(&s, ELP(s._container, p)); SETVIEW(s._container, sp_erase(o, p, p + 1)); VF_ASSERT(r == ELP(s._container, p), "erase(pos) returns the following position"); }
+  else if (which == 1) { __CPROVER_assume(p <= q && q <= o.n); T *r = tf_erase_range(&s, ELP(s._container, p), ELP(s._container, q)); SETVIEW(s._container, sp_erase(o, p, q)); VF_ASSERT(r == ELP(s._container, p), "erase(first,last) returns first"); }
+  else if (which == 2) { unsigned long r = tf_erase_key(&s, &x); VF_ASSERT(r == (has_of(o, xid) ? 1 : 0), "erase(key) returns the number of removed elements");
+    SETVIEW(s._container, has_of(o, xid) ? sp_erase(o, lb_of(o, xid), lb_of(o, xid) + 1) : o); }
+  else { tf_clear(&s); SETVIEW(s._container, e); }
+  INVV(0, s._container); LEAKFREE(1); VF_ASSERT(vf_out_live(&x, 1) && x.id == xid, "C03: the key argument is alive and unchanged");
+  DESTROYF(0, s); LEAKFREE(1); VF_REACH(); }
+
+/*@GROUP name=f_copy_move props=C03,C02 kind=K unwind=7 unwindset=_ZN3etl6rotateIPN2vf7TrackedEEET_S4_S4_S4_:4 objbits=12 cost=3@*/
+void h_f_copy_move(void) { ARBSET(1, FS, s, _container); VF_INPUT(FS, t); VF_INPUT(unsigned char, which); __CPROVER_assume(which <= 3); view_t os = view_of(&s._container);
+  if (which == 0) { raw_vec(0, &t._container); tf_copy_ctor(&t, &s); }
+  else if (which == 1) { own_vec(0, &t._container); tf_copy_assign(&t, &s); }
+  else if (which == 2) { raw_vec(0, &t._container); tf_move_ctor(&t, &s); }
+  else { own_vec(0, &t._container); tf_move_assign(&t, &s); }
+  INVV(0, t._container); INVV(1, s._container); LEAKFREE(0); SETVIEW(t._container, os);
+  if (which <= 1) VF_ASSERT(view_eq(view_of(&s._container), os), "copy leaves the source unchanged");
+  tf_copy_assign(&s, &t); INVV(1, s._container); SETVIEW(s._container, os);
+  LEAKFREE(0); DESTROYF(1, s); INVV(0, t._container); SETVIEW(t._container, os); DESTROYF(0, t); LEAKFREE(0); VF_REACH(); }
+
+/*@GROUP name=f_swap_extract props=C03,C02 kind=K unwind=7 unwindset=_ZN3etl6rotateIPN2vf7TrackedEEET_S4_S4_S4_:4 objbits=12 cost=3@*/
+void h_f_swap_extract(void) { ARBSET(0, FS, a, _container); ARBSET(1, FS, b, _container); view_t oa = view_of(&a._container), ob = view_of(&b._container); VF_INPUT(unsigned char, which); __CPROVER_assume(which <= 3);
+  if (which == 0) { tf_swap(&a, &b); SETVIEW(a._container, ob); SETVIEW(b._container, oa); }
+  else if (which == 1) { tf_swap(&a, &a); SETVIEW(a._container, oa); SETVIEW(b._container, ob); }
+  else if (which == 2) { tf_replace(&a, &b._container); SETVIEW(a._container, ob); VF_ASSERT(SZ(b._container) <= N, "the moved-from container stays well-formed"); }
+  else { VF_INPUT(V, c); raw_vec(2, &c); tf_extract(&a, &c); INVV(2, c); /* contents of the extracted container: C01, family sets */ VF_ASSERT(SZ(a._container) == 0, "extract() leaves the set empty"); DESTROYV(2, c); }
+  INVV(0, a._container); INVV(1, b._container); LEAKFREE(0); DESTROYF(0, a); INVV(1, b._container); DESTROYF(1, b); LEAKFREE(0); VF_REACH(); }
+
+/*@GROUP name=k_stack props=C03,C02 kind=K unwind=7 unwindset=_ZN3etl6rotateIPN2vf7TrackedEEET_S4_S4_S4_:4 objbits=12 cost=3@*/
+void h_k_stack(void) { VF_INPUT(ST, s); own_vec(0, &s.c); VF_INPUT(ST, t); ARG(x); VF_INPUT(unsigned char, op); __CPROVER_assume(op <= 7); view_t o = view_of(&s.c), ot; ot.n = 0; id_type xid = x.id;
+  if (op <= 2) { own_vec(1, &t.c); ot = view_of(&t.c); __CPROVER_assume(o.n < N); if (op == 0) tk_push(&s, &x); else if (op == 1) tk_push_rv(&s, &x); else tk_emplace(&s, xid);
+    VF_ASSERT(view_eq(view_of(&s.c), sp_insert_n(o, o.n, 1, xid)), "push/emplace: the new element is on top"); }
+  else if (op == 3) { own_vec(1, &t.c); ot = view_of(&t.c); __CPROVER_assume(o.n > 0); tk_pop(&s); VF_ASSERT(view_eq(view_of(&s.c), sp_erase(o, o.n - 1, o.n)), "pop removes the top element"); }
+  else if (op == 4) { own_vec(1, &t.c); ot = view_of(&t.c); tk_swap(&s, &t); VF_ASSERT(view_eq(view_of(&s.c), ot) && view_eq(view_of(&t.c), o), "swap exchanges the contents"); view_t h = o; o = ot; ot = h; }
+  else { raw_vec(1, &t.c); if (op == 5) tk_copy_ctor(&t, &s); else if (op == 6) tk_move_ctor(&t, &s); else tk_ctor_cont(&t, &s.c); ot = o; VF_ASSERT(view_eq(view_of(&t.c), o), "stack(stack const&), stack(stack&&), stack(Container const&): same contents"); }
+  INVV(0, s.c); INVV(1, t.c); LEAKFREE(1); VF_ASSERT(vf_out_live(&x, 1), "C03: the argument is still alive");
+  DESTROYK(0, s); INVV(1, t.c); VF_ASSERT(view_eq(view_of(&t.c), ot), "destroying one stack leaves the other alone"); DESTROYK(1, t); LEAKFREE(1); VF_REACH(); }
+
+/*@COMMON@*/
+/* ---- raw storage algorithms: region 0 = destination array (arbitrary prefix alive), region 1 = source range ------------ */
+#define DST(d) VF_INPUT_ARR(T, dst, N); vf_region_set(0, dst, sizeof(T), N); vf_region_live_prefix(0, (d), 1)
+#define DST_IS(d) VF_ASSERT(vf_region_is_prefix(0, (d), 1), "C03: exactly the first d destination slots hold a live object")
+
+/*@GROUP name=m_uninit props=C03,C02 kind=K unwind=7 objbits=12@*/
+void h_m_uninit(void) { VF_INPUT(unsigned char, c); VF_INPUT(unsigned char, which); __CPROVER_assume(c <= N && which <= 2); DST(0); SRC(c); ARG(x); id_type xid = x.id; id_type ids[N]; for (int i = 0; i < N; ++i) ids[i] = src[i].id;
+  T *r = dst + c; if (which == 0) r = tm_uninit_copy(src, src + c, dst); else if (which == 1) r = tm_uninit_move(src, src + c, dst); else tm_uninit_fill(dst, dst + c, &x);
+  DST_IS(c); SRC_INTACT(c); LEAKFREE(1); VF_ASSERT(r == dst + c, "uninitialized_copy/move return the end of the constructed range");
+  for (int i = 0; i < N; ++i) if (i < c) VF_ASSERT(dst[i].id == (which == 2 ? xid : ids[i]), "each destination element is constructed from the corresponding source element / the value");
+  VF_INPUT(unsigned char, how); if (how == 0) tm_destroy(dst, dst + c); else if (how == 1) { T *e = tm_destroy_n(dst, c); VF_ASSERT(e == dst + c, "destroy_n returns the end of the range"); } else { T *e = tm_ranges_destroy(dst, dst + c); VF_ASSERT(e == dst + c, "ranges::destroy returns last"); }
+  DST_IS(0); SRC_INTACT(c); LEAKFREE(1); VF_REACH(); }
+
+/*@GROUP name=m_at props=C03,C02 kind=K unwind=7 objbits=12@*/
+void h_m_at(void) { VF_INPUT(unsigned char, d); VF_INPUT_BOOL(rng); __CPROVER_assume(d < N); DST(d); ARG(x); id_type xid = x.id;
+  T *r = rng ? tm_ranges_construct_at(dst + d, &x) : tm_construct_at(dst + d, xid);
+  DST_IS(d + 1); LEAKFREE(1); VF_ASSERT(r == dst + d && dst[d].id == xid && vf_out_live(&x, 1), "construct_at constructs exactly one object at p from the arguments and returns p");
+  if (rng) tm_ranges_destroy_at(dst + d); else tm_destroy_at(dst + d);
+  DST_IS(d); LEAKFREE(1); VF_REACH(); }
+
+/*@COMMON@*/
+/* ---- inplace_function<int(int),8,1>: _storage holds a live callable (tag 3) <=> _vtable is not the empty vtable -------
+ * g_15_empty_vtable / g_16_vt / g_17_vt are cxx2c's names for detail::empty_vtable<int,int> and for the function-local
+ * `static constexpr vtable_t vt` of the two converting constructors (from Fn const& and from Fn&&). */
+typedef struct etl_inplace_function_int_int_8_1 F;
+typedef struct vf_Fn FN;
+#define VT_EMPTY (&g_15_empty_vtable)
+#define VT_FN_C (&g_16_vt)
+#define VT_FN_M (&g_17_vt)
+#define FEL(f) ((FN *)&(f)._storage)
+#define FENG(f) ((f)._vtable != VT_EMPTY)
+static void own_fun(int k, F *f, unsigned char sel) { vf_region_set(k, FEL(*f), sizeof f->_storage, 1); __CPROVER_assume(sel <= 2); f->_vtable = sel == 0 ? VT_EMPTY : (sel == 1 ? VT_FN_C : VT_FN_M); vf_region_live_prefix(k, sel != 0, 3); }
+static void raw_fun(int k, F *f) { vf_region_set(k, FEL(*f), sizeof f->_storage, 1); vf_region_live_prefix(k, 0, 3); }
+static _Bool inv_fun(int k, const F *f) { return (f->_vtable == VT_EMPTY || f->_vtable == VT_FN_C || f->_vtable == VT_FN_M) && vf_region_is_prefix(k, FENG(*f), 3); }
+static oview_t fview_of(const F *f) { oview_t w; w.has = FENG(*f); w.id = w.has ? FEL(*f)->id : 0; return w; }
+#define ARBF(k, f) VF_INPUT(F, f); VF_INPUT(unsigned char, f##_sel); own_fun(k, &f, f##_sel)
+#define ARGF(x) VF_INPUT(FN, x); vf_out_add(&x, 3)
+#define INVF(k, f) VF_ASSERT(inv_fun(k, &(f)), "C03: representation invariant after the operation: the storage holds a live callable <=> the vtable is not the empty vtable")
+#define DESTROYF_(k, f) do { tn_dtor(&(f)); VF_ASSERT(vf_all_dead(k), "C03: nothing alive once the owner is destroyed"); } while (0)
+
+/*@GROUP name=n_ctors props=C03,C02 kind=F unwind=7 objbits=12@*/
+void h_n_ctors(void) { VF_INPUT(F, f); raw_fun(0, &f); ARGF(x); VF_INPUT(unsigned char, which); VF_INPUT(int, a); __CPROVER_assume(which <= 3); id_type xid = x.id;
+  if (which == 0) tn_default(&f); else if (which == 1) tn_nullptr(&f); else if (which == 2) tn_from(&f, &x); else tn_from_rv(&f, &x);
+  INVF(0, f); LEAKFREE(1); VF_ASSERT(vf_out_live(&x, 3), "C03: the argument is still alive");
+  oview_t e; e.has = which >= 2; e.id = xid; VF_ASSERT(oview_eq(fview_of(&f), e) && tn_bool(&f) == e.has, "inplace_function(), (nullptr): empty; (callable): holds a copy / the moved callable");
+  if (e.has) { VF_ASSERT(tn_call(&f, a) == (a & 1) + xid, "operator() invokes the stored callable"); INVF(0, f); }
+  DESTROYF_(0, f); LEAKFREE(1); VF_REACH(); }
+
+/*@GROUP name=n_copy_move props=C03,C02 kind=F unwind=7 objbits=12 cost=2@*/
+void h_n_copy_move(void) { ARBF(1, s); VF_INPUT(F, t); VF_INPUT(unsigned char, t_sel); VF_INPUT(unsigned char, which); ARGF(x); __CPROVER_assume(which <= 3); oview_t os = fview_of(&s); oview_t em; em.has = 0;
+  if (which == 0) { raw_fun(0, &t); tn_copy_ctor(&t, &s); }
+  else if (which == 1) { own_fun(0, &t, t_sel); tn_assign(&t, &s); }
+  else if (which == 2) { raw_fun(0, &t); tn_move_ctor(&t, &s); }
+  else { own_fun(0, &t, t_sel); tn_assign_rv(&t, &s); }
+  INVF(0, t); INVF(1, s); LEAKFREE(1);
+  VF_ASSERT(oview_eq(fview_of(&t), os), "copy/move construction and assignment over all (empty, engaged) pairs: target == source");
+  VF_ASSERT(oview_eq(fview_of(&s), which <= 1 ? os : em), "copy leaves the source unchanged; move leaves it empty (the callable is relocated)");
+  /* the source stays a valid object: assignable, destructible */
+  VF_INPUT_BOOL(reassign); if (reassign) { tn_assign_fn(&s, &x); INVF(1, s); VF_ASSERT(FENG(s) && FEL(s)->id == x.id, "assignment of a callable to the moved-from source"); }
+  LEAKFREE(1); DESTROYF_(1, s); INVF(0, t); VF_ASSERT(oview_eq(fview_of(&t), os), "destroying the source leaves the target alone"); DESTROYF_(0, t); LEAKFREE(1); VF_REACH(); }
+
+/*@GROUP name=n_modify props=C03,C02 kind=F unwind=7 objbits=12@*/
+void h_n_modify(void) { ARBF(0, f); ARGF(x); VF_INPUT_BOOL(null); id_type xid = x.id; if (null) tn_assign_null(&f); else tn_assign_fn(&f, &x);
+  INVF(0, f); LEAKFREE(1); VF_ASSERT(vf_out_live(&x, 3) && x.id == xid, "C03: the argument is alive and unchanged");
+  oview_t e; e.has = !null; e.id = xid; VF_ASSERT(oview_eq(fview_of(&f), e), "= nullptr: empty (the old callable is destroyed); = callable: holds a copy");
+  DESTROYF_(0, f); LEAKFREE(1); VF_REACH(); }
+
+/*@GROUP name=n_swap props=C03,C02 kind=F unwind=7 objbits=12 cost=2@*/
+void h_n_swap(void) { ARBF(0, a); ARBF(1, b); oview_t oa = fview_of(&a), ob = fview_of(&b); tn_swap(&a, &b);
+  INVF(0, a); INVF(1, b); LEAKFREE(0); VF_ASSERT(oview_eq(fview_of(&a), ob) && oview_eq(fview_of(&b), oa), "swap exchanges the callables over all four (empty, engaged) pairs");
+  DESTROYF_(0, a); INVF(1, b); DESTROYF_(1, b); LEAKFREE(0); VF_REACH(); }
+
+/*@GROUP name=n_self props=C03,C02 kind=F unwind=7 objbits=12@*/
+void h_n_self(void) { ARBF(0, a); oview_t oa = fview_of(&a); VF_INPUT(unsigned char, which); __CPROVER_assume(which <= 2);
+  VF_KNOWN(C03_ipf_self_swap, which == 2 && oa.has);
+  if (which == 0) tn_assign(&a, &a); else if (which == 1) tn_assign_rv(&a, &a); else tn_swap(&a, &a);
+  INVF(0, a); LEAKFREE(0); VF_ASSERT(oview_eq(fview_of(&a), oa), "self-assignment and self-swap leave the value unchanged");
+  DESTROYF_(0, a); LEAKFREE(0); VF_REACH(); }
+
+/*@COMMON@*/
+/* ---- static_vector of a move-only (tag 4) and of a copy-only (tag 5) element type ------------------------------------- */
+#define VF_VEC_HELPERS(sfx, VT, ET, TAG)                                                                                               \
+  static view_t view_of##sfx(const VT *v) { view_t w; w.n = SZ(*v); for (int i = 0; i < N; ++i) w.a[i] = (unsigned long)i < w.n ? ((ET *)&v->b0._data[i])->id : 0; w.a[N] = 0; return w; } \
+  static void own_vec##sfx(int k, VT *v) { vf_region_set(k, &v->b0._data[0], sizeof(ET), N); __CPROVER_assume(SZ(*v) <= N); vf_region_live_prefix(k, SZ(*v), TAG); } \
+  static void raw_vec##sfx(int k, VT *v) { vf_region_set(k, &v->b0._data[0], sizeof(ET), N); vf_region_live_prefix(k, 0, TAG); }       \
+  static _Bool inv_vec##sfx(int k, const VT *v) { return SZ(*v) <= N && vf_region_is_prefix(k, SZ(*v), TAG); }
+typedef struct vf_MoveOnly TM;
+typedef struct vf_CopyOnly TC;
+typedef struct CAT(etl_static_vector_vf_MoveOnly_, VF_N) VM;
+typedef struct CAT(etl_static_vector_vf_CopyOnly_, VF_N) VC;
+VF_VEC_HELPERS(_mo, VM, TM, 4)
+VF_VEC_HELPERS(_co, VC, TC, 5)
+#define ELPM(v, i) ((TM *)&(v).b0._data[i])
+#define ELPC(v, i) ((TC *)&(v).b0._data[i])
+#define INVM(k, v) VF_ASSERT(inv_vec_mo(k, &(v)), "C03: representation invariant after the operation: live[slot] <=> slot < size")
+#define INVC(k, v) VF_ASSERT(inv_vec_co(k, &(v)), "C03: representation invariant after the operation: live[slot] <=> slot < size")
+#define DESTROYM(k, v) do { tvm_dtor(&(v)); VF_ASSERT(vf_all_dead(k), "C03: nothing alive once the owner is destroyed"); } while (0)
+#define DESTROYC(k, v) do { tvc_dtor(&(v)); VF_ASSERT(vf_all_dead(k), "C03: nothing alive once the owner is destroyed"); } while (0)
+
+/*@GROUP name=mo_back props=C03,C02 kind=K unwind=7 unwindset=_ZN3etl6rotateIPN2vf8MoveOnlyEEET_S4_S4_S4_:4 objbits=12@*/
+void h_mo_back(void) { VF_INPUT(VM, v); own_vec_mo(0, &v); VF_INPUT(TM, x); vf_out_add(&x, 4); VF_INPUT(unsigned char, which); __CPROVER_assume(which <= 3); view_t o = view_of_mo(&v); view_t c; c.n = 0; id_type xid = x.id;
+  if (which <= 1) { __CPROVER_assume(o.n < N); if (which == 0) tvm_push_back_rv(&v, &x); else tvm_emplace_back(&v, xid); VF_ASSERT(view_eq(view_of_mo(&v), sp_insert_n(o, o.n, 1, xid)), "push_back(T&&)/emplace_back: n' = n+1, a'[n] = x"); }
+  else if (which == 2) { __CPROVER_assume(o.n > 0); tvm_pop_back(&v); VF_ASSERT(view_eq(view_of_mo(&v), sp_erase(o, o.n - 1, o.n)), "pop_back: n' = n-1"); }
+  else { tvm_clear(&v); VF_ASSERT(view_eq(view_of_mo(&v), c), "clear: empty"); }
+  INVM(0, v); LEAKFREE(1); VF_ASSERT(vf_out_live(&x, 4), "C03: the argument is still alive (moved-from, not destroyed)"); DESTROYM(0, v); LEAKFREE(1); VF_REACH(); }
+
+/*@GROUP name=mo_insert props=C03,C02 kind=K unwind=7 unwindset=_ZN3etl6rotateIPN2vf8MoveOnlyEEET_S4_S4_S4_:4 objbits=12 cost=3@*/
+void h_mo_insert(void) { VF_INPUT(VM, v); own_vec_mo(0, &v); VF_INPUT(TM, x); vf_out_add(&x, 4); VF_INPUT(unsigned char, p); VF_INPUT_BOOL(emp); __CPROVER_assume(SZ(v) < N && p <= SZ(v)); view_t o = view_of_mo(&v); id_type xid = x.id;
+  TM *r = emp ? tvm_emplace(&v, ELPM(v, p), xid) : tvm_insert_rv(&v, ELPM(v, p), &x);
+  INVM(0, v); LEAKFREE(1); VF_ASSERT(vf_out_live(&x, 4), "C03: the argument is still alive (moved-from, not destroyed)");
+  VF_ASSERT(view_eq(view_of_mo(&v), sp_insert_n(o, p, 1, xid)) && r == ELPM(v, p), "insert(pos,T&&)/emplace: n' = n+1; a'[p] = x; suffix shifted up; returns begin()+p");
+  DESTROYM(0, v); LEAKFREE(1); VF_REACH(); }
+
+/*@GROUP name=mo_erase_resize props=C03,C02 kind=K unwind=7 unwindset=_ZN3etl6rotateIPN2vf8MoveOnlyEEET_S4_S4_S4_:4 objbits=12 cost=2@*/
+void h_mo_erase_resize(void) { VF_INPUT(VM, v); own_vec_mo(0, &v); VF_INPUT(unsigned char, f); VF_INPUT(unsigned char, l); VF_INPUT_BOOL(rs); view_t o = view_of_mo(&v);
+  if (rs) { __CPROVER_assume(f <= N); tvm_resize(&v, f); VF_ASSERT(view_eq(view_of_mo(&v), sp_resize(o, f, 0)), "resize(m): n' = m; common prefix kept; new slots are T{}"); }
+  else { __CPROVER_assume(f <= l && l <= o.n); TM *r = tvm_erase_range(&v, ELPM(v, f), ELPM(v, l)); VF_ASSERT(view_eq(view_of_mo(&v), sp_erase(o, f, l)) && r == ELPM(v, f), "erase(first,last): n' = n-(l-f); suffix shifted down; returns begin()+f"); }
+  INVM(0, v); LEAKFREE(0); DESTROYM(0, v); LEAKFREE(0); VF_REACH(); }
+
+/*@GROUP name=mo_move_ctor props=C03,C02 kind=K unwind=7 unwindset=_ZN3etl6rotateIPN2vf8MoveOnlyEEET_S4_S4_S4_:4 objbits=12@*/
+void h_mo_move_ctor(void) { VF_INPUT(VM, s); own_vec_mo(1, &s); VF_INPUT(VM, t); raw_vec_mo(0, &t); view_t os = view_of_mo(&s); VF_INPUT(id_type, i);
+  tvm_move_ctor(&t, &s); INVM(0, t); INVM(1, s); LEAKFREE(0); VF_ASSERT(view_eq(view_of_mo(&t), os), "move construction: target view == source view");
+  if (SZ(s) < N) { tvm_emplace_back(&s, i); INVM(1, s); } LEAKFREE(0); DESTROYM(1, s); INVM(0, t); VF_ASSERT(view_eq(view_of_mo(&t), os), "destroying the source leaves the target alone"); DESTROYM(0, t); LEAKFREE(0); VF_REACH(); }
+
+/*@GROUP name=co_insert props=C03,C02 kind=K unwind=7 unwindset=_ZN3etl6rotateIPN2vf8CopyOnlyEEET_S4_S4_S4_:4 objbits=12 cost=3@*/
+void h_co_insert(void) { VF_INPUT(VC, v); own_vec_co(0, &v); VF_INPUT(TC, x); vf_out_add(&x, 5); VF_INPUT(unsigned char, p); VF_INPUT(unsigned char, c); VF_INPUT(unsigned char, which); __CPROVER_assume(which <= 3 && p <= SZ(v) && c <= N && SZ(v) + c <= N); view_t o = view_of_co(&v); id_type xid = x.id;
+  if (which <= 1) { __CPROVER_assume(c == 1); if (which == 0) tvc_push_back(&v, &x); else tvc_push_back_rv(&v, &x); VF_ASSERT(view_eq(view_of_co(&v), sp_insert_n(o, o.n, 1, xid)), "push_back: n' = n+1, a'[n] = x"); }
+  else { TC *r = which == 2 ? (__CPROVER_assume(c == 1), tvc_insert(&v, ELPC(v, p), &x)) : tvc_insert_n(&v, ELPC(v, p), c, &x);
+    VF_ASSERT(view_eq(view_of_co(&v), sp_insert_n(o, p, c, xid)) && r == ELPC(v, p), "insert(pos,x) / insert(pos,c,x): n' = n+c; c copies of x at p; suffix shifted up; returns begin()+p"); }
+  INVC(0, v); LEAKFREE(1); VF_ASSERT(vf_out_live(&x, 5) && x.id == xid, "C03: the copied-from argument is alive and unchanged (a move of a copy-only type is a copy)"); DESTROYC(0, v); LEAKFREE(1); VF_REACH(); }
+
+/*@GROUP name=co_erase_copy props=C03,C02 kind=K unwind=7 unwindset=_ZN3etl6rotateIPN2vf8CopyOnlyEEET_S4_S4_S4_:4 objbits=12 cost=3@*/
+void h_co_erase_copy(void) { VF_INPUT(VC, s); own_vec_co(1, &s); VF_INPUT(VC, t); VF_INPUT(TC, x); vf_out_add(&x, 5); VF_INPUT(unsigned char, f); VF_INPUT(unsigned char, l); VF_INPUT(unsigned char, which); __CPROVER_assume(which <= 3); view_t os = view_of_co(&s); id_type xid = x.id;
+  if (which == 0) { raw_vec_co(0, &t); tvc_copy_ctor(&t, &s); VF_ASSERT(view_eq(view_of_co(&t), os) && view_eq(view_of_co(&s), os), "copy construction: target == source, source unchanged"); }
+  else if (which == 1) { own_vec_co(0, &t); tvc_copy_assign(&t, &s); VF_ASSERT(view_eq(view_of_co(&t), os) && view_eq(view_of_co(&s), os), "copy assignment: target == source, source unchanged"); }
+  else if (which == 2) { own_vec_co(0, &t); __CPROVER_assume(f <= l && l <= os.n); TC *r = tvc_erase_range(&s, ELPC(s, f), ELPC(s, l)); VF_ASSERT(view_eq(view_of_co(&s), sp_erase(os, f, l)) && r == ELPC(s, f), "erase(first,last): n' = n-(l-f); suffix shifted down"); }
+  else { own_vec_co(0, &t); __CPROVER_assume(f <= N); tvc_resize_x(&s, f, &x); VF_ASSERT(view_eq(view_of_co(&s), sp_resize(os, f, xid)), "resize(m,x): n' = m; common prefix kept; new slots are x"); }
+  INVC(0, t); INVC(1, s); LEAKFREE(1); DESTROYC(1, s); INVC(0, t); DESTROYC(0, t); LEAKFREE(1); VF_REACH(); }
